@@ -24,12 +24,6 @@ pub assume_specification<T> [Cursor::<T>::position] (c: &Cursor<T>) -> (p: u64)
     ensures p == cur_pos(*c);
 pub assume_specification<A: std::alloc::Allocator> [<Cursor<Vec<u8, A>> as Write>::flush] (c: &mut Cursor<Vec<u8, A>>) -> (r: std::io::Result<()>)
     ensures r is Ok, *final(c) == *old(c);
-/// std::io::Cursor<Vec<u8>>::write: overwrites/extends at the position, zero-filling a gap (the "growable cursor" of C14)
-pub open spec fn cur_write_spec(buf: Seq<u8>, pos: int, data: Seq<u8>) -> Seq<u8> {
-    let padded = if pos > buf.len() { buf + Seq::new((pos - buf.len()) as nat, |i: int| 0u8) } else { buf };
-    let tail = if pos + data.len() < padded.len() { padded.subrange(pos + data.len(), padded.len() as int) } else { Seq::<u8>::empty() };
-    padded.subrange(0, pos) + data + tail
-}
 pub assume_specification<A: std::alloc::Allocator> [<Cursor<Vec<u8, A>> as Write>::write] (c: &mut Cursor<Vec<u8, A>>, buf: &[u8]) -> (r: std::io::Result<usize>)
     ensures r is Ok ==> r->Ok_0 == buf@.len() && cur_pos(*final(c)) == cur_pos(*old(c)) + buf@.len()
                 && cur_inner(*final(c))@ == cur_write_spec(cur_inner(*old(c))@, cur_pos(*old(c)) as int, buf@),
